@@ -195,6 +195,12 @@ fn ord(i: usize) -> Ordering {
     [Ordering::Relaxed, Ordering::SeqCst, Ordering::Relaxed, Ordering::SeqCst][i % 4]
 }
 
+/// The orderings that are legal both for a load and as the failure ordering of
+/// a compare-exchange (get_atomic, set_atomic).
+fn ord3(i: usize) -> Ordering {
+    [Ordering::Relaxed, Ordering::SeqCst, Ordering::Acquire][i % 3]
+}
+
 fn atomic_ops<W: TWA, B: AsRef<[W::AtomicType]>>(cx: &mut Ctx, a: &mut AtomicBitFieldVec<W, B>, model: &mut [u128], width: usize, script: &[AOp]) -> R
 where
     W::AtomicType: AtomicUnsignedInt + AsBytes,
@@ -207,7 +213,7 @@ where
             AOp::Get(sel) => {
                 if len > 0 {
                     let i = sel * len >> 16;
-                    let g = cx.must("get_atomic", || a.get_atomic(i, ord(k)))?;
+                    let g = cx.must("get_atomic", || a.get_atomic(i, ord3(k)))?;
                     cx.check_eq(g.to128(), model[i], "get_atomic", || format!("get_atomic({i})"))?;
                 }
             }
@@ -215,7 +221,7 @@ where
                 // width 0: set is documented as undefined
                 if len > 0 && width > 0 {
                     let i = sel * len >> 16;
-                    cx.must("set_atomic", || a.set_atomic(i, W::from128(*v), ord(k)))?;
+                    cx.must("set_atomic", || a.set_atomic(i, W::from128(*v), ord3(k)))?;
                     model[i] = *v;
                 }
             }
